@@ -89,10 +89,17 @@ def tsCols : List TCol :=
 def stamps (s : Schema2) (cols : List TCol) : Bool :=
   s.ge .s2_20_3 && cols.any (fun c => tsCols.contains c)
 
+/-- `UPDATE Track SET lastEditTime = strftime('%s') WHERE ROWID = NEW.ROWID`, when it fires. -/
+def stampRow : Option Int → Raw TCol → Raw TCol
+  | none, raw => raw
+  | some t, raw => setCol raw .lastEditTime (.int t)
+
+def stampOf (s : Schema2) (clock : Int) (cols : List TCol) : Option Int :=
+  if stamps s cols then some clock else none
+
 /-- The AFTER UPDATE triggers on the updated row. -/
 def afterUpdate (s : Schema2) (d : TDb) (cols : List TCol) (raw : Raw TCol) : Raw TCol :=
-  let raw := applyFix d.uuid raw
-  if stamps s cols then setCol raw .lastEditTime (.int d.clock) else raw
+  stampRow (stampOf s d.clock cols) (applyFix d.uuid raw)
 
 /-- `INSERT INTO Track (cols) VALUES (?…)` -/
 def tInsert (d : TDb) (params : List (TCol × Val)) : TDb × Res Int :=
@@ -195,6 +202,25 @@ def tSetc (s : Schema2) (st : TStmts) (d : TDb) (f : TField) (i : Int) (v : FVal
       | (d', .throw e) => (d', .throw e)
       | (d', .ub u) => (d', .ub u)
 
+/-! ## well-formed states -/
+
+/-- The origin columns hold what the API and the triggers put there: an integer
+(or NULL) and a text (or NULL). -/
+def originTyped (raw : Raw TCol) : Bool :=
+  (match raw .originTrackId with | .null | .int _ => true | _ => false) &&
+  (match raw .originDatabaseUuid with | .null | .text _ => true | _ => false)
+
+def uuidTyped : Val → Bool
+  | .null | .text _ => true
+  | _ => false
+
+/-- Invariant of every state reachable through the API: row ids are bounded by
+the AUTOINCREMENT counter, the origin columns and Information.uuid are typed. -/
+structure TDb.Wf (d : TDb) : Prop where
+  ids : idsBelow .id d.rows d.seq
+  typed : ∀ r ∈ d.rows, originTyped r = true
+  uuid : uuidTyped d.uuid = true
+
 /-! ## one step of a history -/
 
 inductive TOp where
@@ -247,6 +273,13 @@ def normRowT (s : Schema2) (uuid : Val) (lastEdit : Option Int) (i : Int) (r : R
 /-- Every member of the row has its declared C++ type. -/
 def wtRowT (r : Row TField) : Prop := ∀ f, wtv f.ty (r f) = true
 
+/-- The operation's arguments have their declared C++ types. -/
+def wtOp : TOp → Prop
+  | .add r => wtRowT r
+  | .update r => wtRowT r
+  | .remove _ => True
+  | .setc f _ v => f ≠ .id ∧ wtv f.accTy v = true
+
 /-- What the accessor pair of a member exchanges for the member value `v`
 (the two creation dates travel as optional time points). -/
 def toAcc (f : TField) (v : FVal) : FVal :=
@@ -265,21 +298,32 @@ def fromAcc (f : TField) (v : FVal) : FVal :=
 /-- Does the database stamp `lastEditTime` when the column of member `f` is set? -/
 def stampsField (s : Schema2) (f : TField) : Bool := stamps s [f.col]
 
+/-- Member `f` replaced by what the accessor value `v` denotes, in normal form. -/
+def setMember (f : TField) (v : FVal) (r0 : Row TField) : Row TField :=
+  fun g => if g = f then normV f.ty (fromAcc f v) else r0 g
+
+/-- The origin fix-up on a typed row. -/
+def fixRowT (uuid : Val) (r : Row TField) : Row TField := fun g =>
+  match g with
+  | .origin_track_id => if originUnset r then r .id else r g
+  | .origin_database_uuid => if originUnset r then .str (readStr uuid) else r g
+  | g => r g
+
+/-- The last-edit stamp on a typed row. -/
+def stampRowT (t : Option Int) (r : Row TField) : Row TField := fun g =>
+  match g with
+  | .last_edit_time =>
+    match t with
+    | some t => .time (t * 1000000000)
+    | none => r g
+  | g => r g
+
 /-- **Spec.** The row `get` must return after `set_<f>(id, v)` on a row that read
 `r0`: member `f` holds `v` (in normal form), every other member is unchanged,
 except the database-maintained ones: the origin pair if the setter left it
 unset, the last-edit time if the schema stamps this column. -/
 def normSetT (s : Schema2) (uuid : Val) (clock : Int) (f : TField) (v : FVal) (r0 : Row TField) : Row TField :=
-  let r1 : Row TField := fun g => if g = f then normV f.ty (fromAcc f v) else r0 g
-  let r2 : Row TField := fun g =>
-    match g with
-    | .origin_track_id => if originUnset r1 then r1 .id else r1 g
-    | .origin_database_uuid => if originUnset r1 then .str (readStr uuid) else r1 g
-    | g => r1 g
-  fun g =>
-    match g with
-    | .last_edit_time => if stampsField s f then .time (clock * 1000000000) else r2 g
-    | g => r2 g
+  stampRowT (if stampsField s f then some clock else none) (fixRowT uuid (setMember f v r0))
 
 /-! ## alignment of the statements with the Spec (decidable) -/
 
